@@ -1752,7 +1752,6 @@ class Mailbox:
                     f"  WHERE mailbox_id=? AND name in ({qms})",
                     (self.id, *(list(names_to_delete))),
                 )
-                await self.server.db.commit()
             for name in new_names:
                 # sequence = ",".join(
                 #     str(x) for x in sorted(self.sequences[name])
